@@ -417,6 +417,9 @@ def catalogue(g):
         "variadic-tparam": ("[T any]", ["V(xs ...T) (T, error)", "W(a string, xs ...T)"], [["int"], ["string"]]),
         "constraint-with-method": ("[T interface{ ~int; String() string }]", ["Use(x T) string"], []),
         "self-ref-constraint": ("[T interface{ Less(T) bool }]", ["Min(a, b T) T"], []),
+        # approximation terms over composite types that mention named types of other packages (the operand of ~ is an unnamed type, its parts are not)
+        "tilde-composite-foreign": ("[S ~[]%s.T, M ~map[string]%s.E | ~map[string]*%s.T]" % (qa, qb, qa), ["Use(s S) M", "All(ss ...S) []M"], [["[]%s.T" % "{ma}", "map[string]%s.E" % "{mb}"]]),
+        "tilde-composite-local": ("[S ~[]LS | ~[2]LS]", ["Use(s S) LS"], []),   # (no instantiation: the drivers cannot name a local type from another package)
         "generic-of-generic": ("[T any]", ["Wrap(x LG[T]) LG[LG[T]]", "Pair(a %s.G2[string, T]) []T" % qa], [["int"]]),
     }
     for k, (tp, body, targs) in gens.items():
